@@ -220,7 +220,7 @@ def assigns_result_variant(body, blocks, variant):
     """does any block in `blocks` assign Result::<variant> to _0 ?"""
     for b in blocks:
         for s in body.stmts(b):
-            if "lhs" in s and s["lhs"][0] == 0 and not s["lhs"][1]:
+            if "lhs" in s and (s["lhs"][0] == 0 or (variant == "Err" and s["lhs"][0] in body.ret_locals)) and not s["lhs"][1]:
                 rv = s["rv"]
                 if rv["k"] == "aggr" and rv.get("adt") == "std::result::Result" and rv.get("variant") == variant:
                     return True
@@ -828,7 +828,7 @@ def returns_err(body, blocks):
         return True
     for b in blocks:
         t = body.term(b)
-        if t["k"] == "call" and "fn" in t and Callee(t["fn"]).decl_path.endswith("FromResidual::from_residual") and t.get("dest") and t["dest"][0] == 0:
+        if t["k"] == "call" and "fn" in t and Callee(t["fn"]).decl_path.endswith("FromResidual::from_residual") and t.get("dest") and t["dest"][0] in body.ret_locals:
             return True
     return False
 
